@@ -1,7 +1,7 @@
 """C20 Switching the session keyspace is applied everywhere or reported (W-FULL)."""
 from dsim import seams
 from dsim.core import HarnessError
-from props.common import gen_stalls, gen_strategy, quiet_logging, Violations
+from props.common import gen_stalls, gen_strategy, quiet_logging, Violations, line_offset
 from dsim.core import Deadlock
 from worlds.reqpath import make_legacy, ReqPathRun, base_plan, RETRY_NEXT_HOST
 from worlds.full import ReqObs
@@ -101,6 +101,16 @@ def gen_plan(rng, tier):
                 sw['load'] = {'node': rng.randrange(n), 'n': p['pool_v2']['max_req'] * p['pool_v2']['core'] + rng.choice([1, 3]),
                               'delay': rng.choice([0.1, 0.3]), 'lead': rng.choice([0.0, 0.001, 0.004, 0.01])}
                 if rng.random() < 0.3:
+                    # ... and the executor thread that opens the additional connection is descheduled after selecting the keyspace on
+                    # it and before adding it to the pool, while the switch walks the pool's connections
+                    p['deep_stalls'] = [['_add_conn_if_under_max', line_offset('cassandra.pool', 'HostConnectionPool._add_conn_if_under_max',
+                                                                             'self._next_trash_allowed_at = time.time()', 18),
+                                         rng.choice([0.2, 0.5]), 2]]
+                    sw['load']['lead'] = rng.choice([0.03, 0.06, 0.12])      # (the connection is open and on the old keyspace when the switch starts)
+                    sw['load']['delay'] = 0.6
+                    p.pop('stall', None)
+                    p.pop('focus_stall', None)
+                elif rng.random() < 0.3:
                     # ... enough of it to take every request id of every connection the pool may have (id space 64)
                     sw['load']['n'] = 64 * p['pool_v2']['max'] + rng.choice([0, 2])
                     sw['load']['delay'] = rng.choice([0.3, 0.6])
@@ -110,7 +120,7 @@ def gen_plan(rng, tier):
 def line_funcs(w):
     return [w.ccl.Session._set_keyspace_for_all_pools, w.cpool.HostConnection._set_keyspace_for_all_conns,
             w.cpool.HostConnection._replace, w.cconn.Connection.set_keyspace_async,
-            w.cpool.HostConnectionPool._set_keyspace_for_all_conns, w.cpool.HostConnectionPool.return_connection, w.ccl.Cluster.on_down]
+            w.cpool.HostConnectionPool._set_keyspace_for_all_conns, w.cpool.HostConnectionPool.return_connection, w.ccl.Cluster.on_down, w.cpool.HostConnectionPool._add_conn_if_under_max]
 
 
 def run_plan(plan, seed, choices=None):
